@@ -9,6 +9,9 @@ import json, os, subprocess, sys, shutil, multiprocessing as mp
 ENV = dict(os.environ, GOFLAGS='-mod=mod', GOPROXY='off', GOSUMDB='off', GOTOOLCHAIN='local', GOCACHE='/verif/.cache/go-build')
 DEPENDENTS = {'listz': ['setz'], 'strz': ['hashz', 'cryptz'], 'hashz': ['randz'], 'typez': []}
 MUTGEN = '/verif/.work/bin/mutgen'
+COST = dict(C01=17, C02=2, C03=10, C04=3, C05=7, C06=19, C07=4, C08=6, C09=35, C10=1, C11=6, C12=10, C13=1, C14=2, C15=6, C16=10, C17=4, C18=6, C19=13, C20=4)
+STRIDE = int(os.environ.get('MUT_STRIDE', '1'))
+DEADLINE = float(os.environ.get('MUT_DEADLINE', '0'))
 
 def files():
     out = {}
@@ -26,7 +29,10 @@ def worker(args):
     os.makedirs(root + '/repo')
     subprocess.run(f'git -C /repo archive HEAD | tar -x -C {root}/repo', shell=True, check=True)
     res = []
+    import time
     for f, ids, mid, line, desc in jobs:
+        if DEADLINE and time.time() > DEADLINE:
+            break
         path = f'{root}/repo/{f}'
         orig = open(path, 'rb').read()
         mutated = subprocess.run([MUTGEN, '-apply', str(mid), f'/repo/{f}'], capture_output=True)
@@ -46,7 +52,9 @@ def worker(args):
             if t.returncode != 0:
                 continue  # killed by golib's own tests
             verdict = []
-            for cid in ids:
+            for cid in sorted(ids, key=lambda c: COST.get(c, 10)):
+                if verdict and verdict[-1].split('=')[1] == '1':
+                    break  # already reported by a cheaper check
                 env = dict(ENV, VERIF_REPO=root + '/repo', VERIF_OUT=root + '/out', VERIF_WORKDIR=root + '/work')
                 try:
                     c = subprocess.run(['/verif/check.sh', cid, 'quick'], env=env, capture_output=True, text=True, timeout=900)
@@ -72,7 +80,8 @@ def main():
             continue
         for l in subprocess.run([MUTGEN, '-list', '/repo/' + f], capture_output=True, text=True).stdout.splitlines():
             mid, line, desc = l.split('\t')
-            jobs.append((f, ids, int(mid), int(line), desc))
+            if int(mid) % STRIDE == 0:
+                jobs.append((f, ids, int(mid), int(line), desc))
     print(len(jobs), 'mutants', flush=True)
     chunks = [(i, jobs[i::nw]) for i in range(nw)]
     with mp.Pool(nw) as pool:
